@@ -10,6 +10,16 @@ CLAIMS = {
   text="Structural necessary condition, for all scripts at once: in the three sandbox configurations (bare, +StandardSetup, cmd/zygo -sandbox) no call site of a file/process/environment/exit/network/syscall sink is reachable in the modelled call graph from the script-facing entry points, the compiler's special forms, the instructions and the builtins registered in that configuration; the sandbox flag used for pruning is stored at every interpreter allocation. Sound modulo reflection and the deny-list; does not decide resource exhaustion or information flow.",
   note="Trusts go/ssa + RTA resolution of dynamic calls (function values by signature among address-taken functions in reachable code; interface invokes by live types), the deny-list of standard-library sinks in c08.go, and that std functions off the list give no script-controlled outside access. Host-side actions of the command-line driver are exempted one call site at a time in tables/C08.tsv.",
   ref="DESIGN.md §3 C08, §2.2"),
+ "C19": dict(
+  technique="who-writes tables + SSA dominance/guard checks on the interning routine (custom go/ssa analysis)",
+  text="Structural necessary conditions of consistent interning, for all creation orders: the name table, the reverse table and the counter are written only by the interning routine and the constructors; both tables are updated in the same block with swapped key/value; the number given to a new name is the counter, tested unused in the reverse table with no counter change in between; a known name yields its recorded number; a generated name is interned only on the not-found branch of a lookup of that same name; Clone/Duplicate share both tables by reference; comparison and hashing of symbols read the number only. Does not decide agreement with a model over interleavings.",
+  note="Trusts go/ssa; the rules recognise the current idioms of MakeSymbol/GenSymbol (comma-ok lookups, loop with break) and fail closed on shapes they cannot read.",
+  ref="DESIGN.md §3 C19"),
+ "C14": dict(
+  technique="who-writes tables + SSA guard/dominance analysis of the set/delete/get routines (custom go/ssa analysis)",
+  text="Structural necessary conditions of the ordered-map behaviour, for all operation histories: bucket map, key-order list and key count are written only by HashSet/HashDelete/SetHashKeyOrder/CloneFrom/MakeHash; in HashSet a pair is created, the key appended and the count incremented together and only under a bucket-missing or no-match-found guard, never on the replace path, and the replace path stores into the bucket; in HashDelete bucket, count and order list change only on the key-matched path and all three do change there; set, get and delete accept a pair exactly when Compare returned nil error and 0; get returns a stored value only for the matching pair. Does not decide agreement with an ordered-map model over histories, nor the aliasing introduced by CloneFrom.",
+  note="Trusts go/ssa; recognises the current loop/flag idioms and fails closed otherwise.",
+  ref="DESIGN.md §3 C14"),
 }
 NA_DEFAULT="rules not built yet (build in progress; see DESIGN.md §7)"
 NA = {}
